@@ -176,8 +176,10 @@ class C09Engine(Engine):
         n_ts = 1 + tape.choose("n_ts", 3)
         inputs = []
         for i in range(n_ts):
+            # 30 % diploid individuals: variational_gamma(singletons_phased=False) may then move mutations between the
+            # two genomes of an individual ("mutation nodes" in the statement)
             ts, mu, info = workload.gen_msprime(tape, max_samples=6, allow_ancient=False,
-                                                allow_internal_samples=False, diploid=False, max_rho=2.0)
+                                                allow_internal_samples=False, diploid=None, max_rho=2.0)
             inputs.append((ts, mu))
             log.add("TS", i, sorted(info.items()), mu)
         clk = vclock.VClock(tick=tape.pick("tick", [0.001, 0.0, 1.5]))
@@ -228,6 +230,10 @@ class C09Engine(Engine):
                     call = {"ts": tape.choose("ts", n_ts), "method": "variational_gamma",
                             "max_iterations": 1 + tape.choose("vg_it", 4),
                             "rescaling_intervals": tape.pick("vg_resc", [1000, 0, 5]), "prior": None}
+                    if inputs[call["ts"]][0].num_individuals > 0:
+                        call["singletons_phased"] = bool(tape.pick("vg_phased", [1, 0, 0]))
+                        if not call["singletons_phased"]:
+                            stats["probe.vgamma_unphased_singletons"] += 1
                 else:
                     call = self.draw_call(tape, n_ts, shared)
                 history.append(call)
@@ -290,7 +296,8 @@ class C09Engine(Engine):
 
     def call_key(self, call, shared):
         if call["method"] == "variational_gamma":
-            return ("vg", call["ts"], call["max_iterations"], call["rescaling_intervals"])
+            return ("vg", call["ts"], call["max_iterations"], call["rescaling_intervals"],
+                    call.get("singletons_phased", True))
         kind, x = call["prior"]
         if kind == "shared":
             pk = tuple(sorted(shared[x]["params"].items()))
@@ -302,8 +309,11 @@ class C09Engine(Engine):
 
     def kwargs_for(self, call, mu):
         if call["method"] == "variational_gamma":
-            return dict(mutation_rate=mu, method="variational_gamma", max_iterations=call["max_iterations"],
-                        rescaling_intervals=call["rescaling_intervals"])
+            kw = dict(mutation_rate=mu, method="variational_gamma", max_iterations=call["max_iterations"],
+                      rescaling_intervals=call["rescaling_intervals"])
+            if "singletons_phased" in call:
+                kw["singletons_phased"] = call["singletons_phased"]
+            return kw
         kw = dict(mutation_rate=mu, method=call["method"])
         if call["space"] is not None:
             kw["probability_space"] = call["space"]
